@@ -9,6 +9,7 @@ import (
 	"os"
 	"os/exec"
 	"path/filepath"
+	"regexp"
 	"strings"
 	"sync"
 	"sync/atomic"
@@ -20,7 +21,8 @@ type Solver struct {
 	cmd         *exec.Cmd
 	in          io.WriteCloser
 	out         *bufio.Reader
-	synced      int // number of entries of the shared declaration log already sent to this process
+	stack       []string // conjuncts currently asserted, one scope each
+	synced      int      // number of entries of the shared declaration log already sent to this process
 	queries     int
 	dur         time.Duration
 	feasTimeout int
@@ -80,6 +82,9 @@ func (s *Solver) sync() {
 	s.sh.declMu.Lock()
 	d := s.sh.decls
 	s.sh.declMu.Unlock()
+	if s.synced < len(d) {
+		s.resetStack() // declarations and axioms are global: they must not sit inside a scope that gets popped
+	}
 	for ; s.synced < len(d); s.synced++ {
 		s.send(d[s.synced])
 	}
@@ -127,6 +132,8 @@ func (s *Solver) readLine() string {
 
 // check: branch feasibility under the short cap (unknown = keep the branch). Non-linear definitions (#def#) are
 // left out: dropping conjuncts can only keep more branches, so pruning stays sound.
+// The solver's assertion stack mirrors the path condition of the state checked last (one scope per conjunct), so a
+// check costs only the part of the path condition that differs from the previous check.
 func (s *Solver) check(pc []string, extra ...string) string {
 	if s.dead {
 		return "unknown"
@@ -137,26 +144,16 @@ func (s *Solver) check(pc []string, extra ...string) string {
 		s.send(fmt.Sprintf("(set-option :timeout %d)", s.feasTimeout))
 		s.curTimeout = s.feasTimeout
 	}
+	s.alignStack(pc)
 	s.send("(push)")
-	for _, p := range pc {
-		if strings.HasPrefix(p, "#def#") {
-			continue
-		}
-		s.send("(assert " + strings.TrimPrefix(p, "#name#") + ")")
-	}
 	for _, p := range extra {
 		s.send("(assert " + p + ")")
 	}
 	s.send("(check-sat)")
 	line := s.readLine()
-	for strings.HasPrefix(line, "(error") {
+	if strings.HasPrefix(line, "(error") {
 		s.errors++
-		line = s.readLine()
-		if s.dead {
-			break
-		}
 		line = "unknown"
-		break
 	}
 	s.send("(pop)")
 	s.queries++
@@ -165,6 +162,44 @@ func (s *Solver) check(pc []string, extra ...string) string {
 		return "unknown"
 	}
 	return line
+}
+
+// alignStack makes the asserted scopes equal to the feasibility view of pc (#def# conjuncts skipped).
+func (s *Solver) alignStack(pc []string) {
+	// declarations arrive through sync() at the outermost level only: if new ones are pending we must be at depth 0
+	k := 0
+	i := 0
+	for i < len(pc) && k < len(s.stack) {
+		if strings.HasPrefix(pc[i], "#def#") {
+			i++
+			continue
+		}
+		if s.stack[k] != pc[i] {
+			break
+		}
+		i++
+		k++
+	}
+	// skip trailing defs
+	if k < len(s.stack) {
+		s.send(fmt.Sprintf("(pop %d)", len(s.stack)-k))
+		s.stack = s.stack[:k]
+	}
+	for ; i < len(pc); i++ {
+		if strings.HasPrefix(pc[i], "#def#") {
+			continue
+		}
+		s.send("(push)")
+		s.send("(assert " + strings.TrimPrefix(pc[i], "#name#") + ")")
+		s.stack = append(s.stack, pc[i])
+	}
+}
+
+func (s *Solver) resetStack() {
+	if len(s.stack) > 0 {
+		s.send(fmt.Sprintf("(pop %d)", len(s.stack)))
+		s.stack = nil
+	}
 }
 
 // ---- fresh-process final queries ----
@@ -191,13 +226,82 @@ type FinalQuery struct {
 var finalSem = make(chan struct{}, 16)
 var finalSeq int64
 
-// buildQuery renders a self-contained SMT-LIB file.
+var identRe = regexp.MustCompile(`[A-Za-z_][A-Za-z0-9_.$]*`)
+
+// buildQuery renders a self-contained SMT-LIB file: the path condition, the extra conjuncts, and the cone of
+// influence of the global log (declarations of the symbols they mention and the pre-state axioms about those symbols).
 func (s *Solver) buildQuery(pc []string, extra []string, evals []string) string {
-	var sb strings.Builder
 	s.sh.declMu.Lock()
 	d := s.sh.decls
 	s.sh.declMu.Unlock()
+	need := map[string]bool{}
+	addSyms := func(t string) {
+		for _, m := range identRe.FindAllString(t, -1) {
+			need[m] = true
+		}
+	}
+	for _, p := range pc {
+		addSyms(p)
+	}
+	for _, p := range extra {
+		addSyms(p)
+	}
+	for _, p := range evals {
+		addSyms(p)
+	}
+	// axioms: include when they mention a needed symbol (then their other symbols are needed too); iterate to a fixpoint
+	type ax struct {
+		text string
+		syms []string
+		in   bool
+	}
+	var axs []*ax
 	for _, g := range d {
+		if strings.HasPrefix(g, "(assert ") {
+			axs = append(axs, &ax{text: g, syms: identRe.FindAllString(g, -1)})
+		}
+	}
+	for changed := true; changed; {
+		changed = false
+		for _, a := range axs {
+			if a.in {
+				continue
+			}
+			hit := false
+			for _, sy := range a.syms {
+				if need[sy] && !smtKeyword[sy] {
+					hit = true
+					break
+				}
+			}
+			if hit {
+				a.in = true
+				changed = true
+				for _, sy := range a.syms {
+					need[sy] = true
+				}
+			}
+		}
+	}
+	var sb strings.Builder
+	ai := 0
+	for _, g := range d {
+		switch {
+		case strings.HasPrefix(g, "(declare-const "):
+			name := g[len("(declare-const "):]
+			if i := strings.IndexByte(name, ' '); i > 0 {
+				name = name[:i]
+			}
+			if !need[name] {
+				continue
+			}
+		case strings.HasPrefix(g, "(assert "):
+			in := axs[ai].in
+			ai++
+			if !in {
+				continue
+			}
+		}
 		sb.WriteString(g)
 		sb.WriteByte('\n')
 	}
@@ -208,14 +312,15 @@ func (s *Solver) buildQuery(pc []string, extra []string, evals []string) string 
 		sb.WriteString("(assert " + p + ")\n")
 	}
 	sb.WriteString("(check-sat)\n")
-	if len(evals) > 0 {
-		// one get-value per term so that one bad term cannot hide the others
-		for _, t := range evals {
-			sb.WriteString("(get-value (" + t + "))\n")
-		}
+	for _, t := range evals {
+		sb.WriteString("(get-value (" + t + "))\n")
 	}
 	return sb.String()
 }
+
+var smtKeyword = map[string]bool{"assert": true, "and": true, "or": true, "not": true, "ite": true, "let": true, "true": true, "false": true,
+	"bal0": true, "sup0": true, "modaddr": true, "addrof": true, "bech32ok": true, "bech32of": true, "strcat": true, "bcat": true, "strofint": true,
+	"strofdec": true, "deraddr": true, "deraddr_m": true, "deraddr_k": true, "to_real": true, "mod": true, "div": true, "Int": true, "Bool": true, "Real": true}
 
 func runZ3File(bin, file string, capS int) (verdict string, values map[string]string, hadErr bool) {
 	out, _ := exec.Command(bin, fmt.Sprintf("-T:%d", capS), file).Output()
